@@ -124,6 +124,12 @@ func (fr *Frame) execCall(st *State, cc *ssa.CallCommon, instr ssa.Instruction, 
 }
 
 func (fr *Frame) callFunction(st *State, fn *ssa.Function, args []Val, binds []Val, sig *types.Signature, pos token.Pos) []Val {
+	res := fr.callFunction0(st, fn, args, binds, sig, pos)
+	fr.ghostCallUpdates(st, fn.Name(), args, res, true)
+	return res
+}
+
+func (fr *Frame) callFunction0(st *State, fn *ssa.Function, args []Val, binds []Val, sig *types.Signature, pos token.Pos) []Val {
 	key := FuncKey(fn)
 	fc := fr.en.CS.Funcs[key]
 	// recursion: the function under verification calls itself (directly or through inlined
@@ -263,6 +269,12 @@ func (fr *Frame) havocCall(st *State, sig *types.Signature, prefix string) []Val
 
 // execInvoke: interface method call.
 func (fr *Frame) execInvoke(st *State, cc *ssa.CallCommon, args []Val, pos token.Pos) []Val {
+	res := fr.execInvoke0(st, cc, args, pos)
+	fr.ghostCallUpdates(st, cc.Method.Name(), args, res, true)
+	return res
+}
+
+func (fr *Frame) execInvoke0(st *State, cc *ssa.CallCommon, args []Val, pos token.Pos) []Val {
 	recvT := cc.Value.Type()
 	m := cc.Method
 	key := ""
@@ -729,17 +741,30 @@ func (fr *Frame) callHooks(st *State, name string, args []Val, pos token.Pos) {
 			}
 		}
 	}
+	fr.ghostCallUpdates(st, name, args, nil, false)
+}
+
+func (fr *Frame) ghostCallUpdates(st *State, name string, args []Val, res []Val, after bool) {
+	if fr.parent != nil || fr.fc == nil {
+		return
+	}
 	for _, gu := range fr.fc.GhostUps {
-		if gu.OnCall != name {
+		if gu.OnCall != name || gu.After != after {
 			continue
 		}
 		sc := fr.loopScope(st, st.alloc)
 		for i, a := range args {
 			sc.vars[fmt.Sprintf("arg%d", i)] = a
 		}
+		for i, a := range res {
+			sc.vars[fmt.Sprintf("ret%d", i)] = a
+		}
 		v := fr.evalExpr(sc, gu.E)
 		if old, ok := st.ghost[gu.Name]; ok {
 			v = fr.coerce(v, old)
+			if m, ok := iteVal(True, v, old); ok {
+				v = m
+			}
 		}
 		st.ghost[gu.Name] = v
 	}
